@@ -27,8 +27,8 @@ def instances(tier):
             out.append({'entry': 'h_exchange', 'params': [0, 5, n, b, e],
                         'bound': 'GET with Range: bytes=%d-%d on a %d-byte file of symbolic bytes' % (b, e, n)})
     for kind in (0, 1):
-        out.append({'entry': 'h_two_clients', 'group': 'conc', 'params': [1 if q else 2, kind, 3 if q else 4],
-                    'bound': 'two clients in flight against HttpServer on SocketServer (accept thread + 2 handler threads), %s of %d symbolic bytes each; every interleaving with at most %d preemption(s) at system calls and atomic operations, fair hand-over at time-outs' % (('file bodies', 'byte bodies')[kind], 3 if q else 4, 1 if q else 2)})
+        out.append({'entry': 'h_two_clients', 'group': 'conc', 'params': [1, kind, 3 if q else 5],
+                    'bound': 'two clients in flight against HttpServer on SocketServer (accept thread + 2 handler threads), %s of %d symbolic bytes each; every interleaving with at most %d preemption(s) at system calls and atomic operations, fair hand-over at time-outs' % (('file bodies', 'byte bodies')[kind], 3 if q else 5, 1)})
     for f0 in (0, 1, 2):
         for f1 in (0, 1, 2):
             out.append({'entry': 'h_keepalive', 'params': [f0, f1], 'bound': 'two requests back to back on one kept-alive server connection, framing %s then %s, symbolic bodies and query values' % (('no body', 'Content-Length', 'chunked')[f0], ('no body', 'Content-Length', 'chunked')[f1])})
